@@ -127,23 +127,30 @@ def r1(prog: Program, chk: Check) -> None:
         chk.add("R1", pu, f"return {norm(r.value)}", ok,
                 "" if ok else "the property returns the other map", r)
 
-    # ---- selectors and front-end wiring
-    fronts = [("tempo:Tempo._influence", "tempo:Tempo._prepare_backend"),
-              ("pt_tempo:PtTempo._influence", "pt_tempo:PtTempo._init_pt_tempo_backend"),
-              ("tempo:MeanFieldTempo._get_influence", "tempo:MeanFieldTempo._prepare_backend")]
-    for sel_q, prep_q in fronts:
-        su = prog.unit(sel_q)
-        R = Roles(su)
+    # ---- selectors and front-end wiring (found by content, wherever they live)
+    front_mods = ("tempo", "pt_tempo")
+    roles_of: Dict[str, Roles] = {}
+
+    def R_(unit: Unit) -> Roles:
+        if unit.qual not in roles_of:
+            roles_of[unit.qual] = Roles(unit)
+        return roles_of[unit.qual]
+
+    # (1) representative arrays: np.where(M == i)[0][0] for i in range(max(M2)+1)
+    selectors = 0
+    for su in [u for m_ in front_mods for u in prog.units_in(m_) if not isinstance(u.node, ast.Lambda)]:
+        lcs = [lc for lc in walk_local(su.node) if isinstance(lc, ast.ListComp) and any(
+            isinstance(c, ast.Call) and (dotted(c.func) or "").endswith("where")
+            for c in ast.walk(lc.elt))]
+        if not lcs:
+            continue
+        selectors += 1
+        R = R_(su)
         chk.saw(su, R.du.cfg)
-        # representative arrays: np.where(M == i)[0][0] for i in range(max(M2)+1)
-        reps = 0
-        for lc in [x for x in walk_local(su.node) if isinstance(x, ast.ListComp)]:
+        for lc in lcs:
             nid = R.du.node_of(lc)
             wh = [c for c in ast.walk(lc.elt) if isinstance(c, ast.Call)
                   and (dotted(c.func) or "").endswith("where")]
-            if not wh:
-                continue
-            reps += 1
             r_in = R.role(wh[0], nid)
             r_bound = R.role(lc.generators[0].iter, nid)
             ok = len(r_in) == 1 and r_in == r_bound
@@ -151,47 +158,91 @@ def r1(prog: Program, chk: Check) -> None:
                     f"range(max({_fmt(r_bound)})+1)", ok,
                     "" if ok else "the class count and the searched map belong to different "
                                   "degeneracy maps", lc)
-        if reps != 2:
-            raise AnalysisError(f"R1: expected 2 representative selections in {sel_q}, found {reps}")
-        # the pair handed to influence_matrix(deg_positions=...) - whatever the local is called
-        pair_sites = 0
-        scopes = [su] + [v for v in prog.all_nested(su) if not isinstance(v.node, ast.Lambda)]
-        for c in [x for sc in scopes for x in walk_local(sc.node)]:
-            if not (isinstance(c, ast.Call) and call_name(c) == "influence_matrix"):
-                continue
-            dp = next((k.value for k in c.keywords if k.arg == "deg_positions"), None)
+        if len(lcs) != 2:
+            raise AnalysisError(f"R1: expected 2 representative selections in {su.qual}, "
+                                f"found {len(lcs)}")
+    if selectors < 3:
+        raise AnalysisError(f"R1: only {selectors} functions select class representatives "
+                            f"(Tempo, PtTempo, MeanFieldTempo confirmed by hand)")
+
+    # (2) the pair handed to influence_matrix(deg_positions) - whatever the local is called,
+    #     however it is passed, wherever it was made
+    im_params = prog.unit("tempo:influence_matrix").params
+
+    def pair_values(unit: Unit, at: ast.AST, e: ast.AST, depth: int = 0):
+        """(unit, node id, value expression) candidates of a deg_positions argument."""
+        if depth > 4:
+            return
+        if isinstance(e, ast.Name):
+            owner = unit if not isinstance(unit.node, ast.Lambda) else unit.parent
+            while owner is not None:
+                Ro = R_(owner)
+                nid = Ro.du.node_of(at) if owner is unit else None
+                defs = [df for df in (Ro.du.reaching(nid, e.id) if nid is not None else
+                                      [d for d in Ro.du.defs if d.name == e.id])
+                        if df.value is not None]
+                if defs:
+                    for df in defs:
+                        yield from pair_values(owner, Ro.du.cfg.nodes[df.node].ast, df.value, depth + 1)
+                    return
+                owner = owner.parent
+            return
+        mc = method_call(e) if isinstance(e, ast.Call) else None
+        if mc and mc[0] == "self":
+            ci_ = prog.class_of_unit(unit)
+            helper = prog.find_method(ci_, mc[1]) if ci_ else None
+            if helper is not None:
+                for r in [x for x in walk_local(helper.node) if isinstance(x, ast.Return)
+                          and x.value is not None]:
+                    yield from pair_values(helper, r, r.value, depth + 1)
+                return
+        owner = unit if not isinstance(unit.node, ast.Lambda) else unit.parent
+        yield owner, R_(owner).du.node_of(at), e
+
+    pair_sites = 0
+    for u in prog.units.values():
+        if u.module.short not in front_mods:
+            continue
+        calls = [c for c in (ast.walk(u.node.body) if isinstance(u.node, ast.Lambda)
+                             else walk_local(u.node))
+                 if isinstance(c, ast.Call) and call_name(c) == "influence_matrix"]
+        for c in calls:
+            bound = {im_params[i_]: a for i_, a in enumerate(c.args) if i_ < len(im_params)}
+            bound.update({kw_.arg: kw_.value for kw_ in c.keywords if kw_.arg})
+            dp = bound.get("deg_positions")
             if dp is None:
                 continue
-            nid = R.du.node_of(c)
-            cands = [dp]
-            if isinstance(dp, ast.Name) and nid is not None:
-                cands = [df.value for df in R.du.reaching(nid, dp.id) if df.value is not None]
-                cnodes = [df.node for df in R.du.reaching(nid, dp.id) if df.value is not None]
-            elif isinstance(dp, ast.Name):
-                # free variable of a closure: every assignment in the enclosing function
-                defs = [df for df in R.du.defs if df.name == dp.id and df.value is not None]
-                cands, cnodes = [df.value for df in defs], [df.node for df in defs]
-            else:
-                cnodes = [nid]
-            for v, vn in zip(cands, cnodes):
+            anchor_unit = u if not isinstance(u.node, ast.Lambda) else u.parent
+            at = c
+            if isinstance(u.node, ast.Lambda):
+                # the statement of the enclosing function that holds the lambda
+                at = next((st for st in walk_local(anchor_unit.node) if isinstance(st, ast.stmt)
+                           and any(x is u.node for x in ast.walk(st))), c)
+            for (vu, vn, v) in pair_values(u if not isinstance(u.node, ast.Lambda) else anchor_unit,
+                                           at, dp):
                 if isinstance(v, ast.Constant) and v.value is None:
                     continue
                 pair_sites += 1
                 if isinstance(v, (ast.List, ast.Tuple)) and len(v.elts) == 2:
-                    ra, rb = R.role(v.elts[0], vn), R.role(v.elts[1], vn)
+                    ra, rb = R_(vu).role(v.elts[0], vn), R_(vu).role(v.elts[1], vn)
                     ok = ra == {NORTH} and rb == {WEST}
-                    chk.add("R1", su, f"deg_positions = [{_fmt(ra)}, {_fmt(rb)}]", ok,
+                    chk.add("R1", vu, f"deg_positions = [{_fmt(ra)}, {_fmt(rb)}]", ok,
                             "" if ok else "the pair is not [north, west]", v)
                 else:
-                    chk.add("R1", su, f"deg_positions = {norm(v)[:50]}", False,
+                    chk.add("R1", vu, f"deg_positions = {norm(v)[:50]}", False,
                             "not a [north, west] pair of representative arrays", v)
-        if pair_sites < 1:
-            raise AnalysisError(f"R1: no deg_positions pair reaches influence_matrix in {sel_q}")
-        pu = prog.unit(prep_q)
-        P = Roles(pu)
+    if pair_sites < 3:
+        raise AnalysisError(f"R1: only {pair_sites} deg_positions pairs reach influence_matrix "
+                            f"(Tempo, PtTempo, MeanFieldTempo confirmed by hand)")
+
+    # (3) binding to the back-end constructors: the parameter names carry the roles
+    n_ctor = 0
+    for pu in [u for m_ in front_mods for u in prog.units_in(m_) if not isinstance(u.node, ast.Lambda)]:
+        if not any(isinstance(c, ast.Call) and call_name(c) in (
+                "TempoBackend", "PtTempoBackend", "MeanFieldTempoBackend") for c in walk_local(pu.node)):
+            continue
+        P = R_(pu)
         chk.saw(pu, P.du.cfg)
-        # binding to the back-end constructor: the parameter names carry the roles
-        n_ctor = 0
         for c in walk_local(pu.node):
             if isinstance(c, ast.Call) and call_name(c) in ("TempoBackend", "PtTempoBackend",
                                                             "MeanFieldTempoBackend"):
@@ -218,9 +269,9 @@ def r1(prog: Program, chk: Check) -> None:
                         ok = _is_pair_or_list_of_pairs(P, a, nid)
                         chk.add("R1", pu, f"{call_name(c)}({p} = [north, west] pair(s))", ok,
                                 "" if ok else "the pair is not [north, west]", c)
-        if n_ctor < 3:
-            raise AnalysisError(f"R1: back-end constructor of {prep_q} no longer receives the "
-                                f"summing vectors and degeneracy maps")
+    if n_ctor < 9:
+        raise AnalysisError(f"R1: the back-end constructors receive only {n_ctor} summing vectors / "
+                            f"degeneracy maps (9 confirmed by hand)")
 
     # ---- influence_matrix
     im = prog.unit("tempo:influence_matrix")
@@ -450,6 +501,18 @@ def r3(prog: Program, chk: Check) -> None:
     rotation_per_case(prog, chk, "R3")
 
 
+def r4(prog: Program, chk: Check) -> None:
+    chk.rule("R4", "each influence function reduces its matrices with the degeneracy positions of its own bath: no closure that outlives a loop iteration (kept in a list, handed to a back end) reads a variable that the loop rebinds - it would see the value of the last iteration, i.e. every species of a mean-field computation would use the positions of the last bath while its back end holds its own maps (a default argument, a factory function or functools.partial binds "
+             "the value when the closure is made; a closure consumed within the iteration is fine). "
+             "Expected count on a correct tree is zero: a built-in example with two defective and "
+             "two accepted closures is judged on every run", floor=1)
+    from rules import latebinding
+    latebinding.self_check("R4")
+    n = latebinding.late_binding(prog, chk, "R4", modules={'backends.pt_tempo_backend', 'backends.tempo_backend', 'pt_tempo', 'tempo'})
+    chk.add("R4", prog.module("tempo"), f"{n} closures created in loops / comprehensions examined; "
+            f"built-in example judged as expected", True, "")
+
+
 def run(prog: Program, chk: Check) -> None:
     chk.explanation = (
         "Decides role consistency of the two degeneracy maps: provenance tags NORTH (classes of "
@@ -466,3 +529,4 @@ def run(prog: Program, chk: Check) -> None:
     chk.call(r1, prog, chk)
     chk.call(r2, prog, chk)
     chk.call(r3, prog, chk)
+    chk.call(r4, prog, chk)
